@@ -1246,6 +1246,99 @@ def _conv_arr(X, W, Bv, attrs, k):
     return out
 
 
+def _conv_transpose_arr(X, W, Bv, attrs, k):
+    """ONNX ConvTranspose: W is [C, M/group, k...]; out[o] += x[i] * w[k] with o = i*stride + k*dilation - pad_begin"""
+    if X.ndim < 3 or W.ndim != X.ndim:
+        raise Bottom("ConvTranspose ranks")
+    N, C = X.shape[0], X.shape[1]
+    nsp = X.ndim - 2
+    if nsp > 2:
+        raise NotEncoded("ConvTranspose 3-D")
+    group = int(attrs.get("group", 1))
+    if group < 1 or W.shape[0] != C or C % group:
+        raise Bottom("ConvTranspose channels/group")
+    Mg = W.shape[1]
+    M = Mg * group
+    Cg = C // group
+    kshape = list(W.shape[2:])
+    if "kernel_shape" in attrs and [int(v) for v in attrs["kernel_shape"]] != kshape:
+        raise Bottom("kernel_shape mismatch")
+    strides = [int(v) for v in attrs.get("strides", [1] * nsp)]
+    dil = [int(v) for v in attrs.get("dilations", [1] * nsp)]
+    opad = [int(v) for v in attrs.get("output_padding", [0] * nsp)]
+    if len(strides) != nsp or len(dil) != nsp or len(opad) != nsp or any(s < 1 for s in strides) or any(d < 1 for d in dil):
+        raise Bottom("ConvTranspose strides/dilations/output_padding")
+    if any(opad[i] < 0 or opad[i] >= max(strides[i], dil[i]) for i in range(nsp)):
+        raise Bottom("output_padding must be smaller than stride or dilation")
+    auto = attrs.get("auto_pad", "NOTSET")
+    if isinstance(auto, bytes):
+        auto = auto.decode()
+    in_sp = list(X.shape[2:])
+    eff = [(kshape[i] - 1) * dil[i] + 1 for i in range(nsp)]
+    if "output_shape" in attrs:
+        oshape = [int(v) for v in attrs["output_shape"]][-nsp:]
+        total = [strides[i] * (in_sp[i] - 1) + opad[i] + eff[i] - oshape[i] for i in range(nsp)]
+        if any(t < 0 for t in total):
+            raise NotEncoded("ConvTranspose output_shape larger than the unpadded result")
+        if auto == "SAME_UPPER":
+            pb = [t // 2 for t in total]
+        else:
+            pb = [t - t // 2 for t in total]
+        pe = [t - b for t, b in zip(total, pb)]
+        out_sp = oshape
+    elif auto in ("NOTSET", "VALID"):
+        pads = attrs.get("pads")
+        pads = [0] * (2 * nsp) if (pads is None or auto == "VALID") else [int(p) for p in pads]
+        if len(pads) != 2 * nsp or any(p < 0 for p in pads):
+            raise Bottom("ConvTranspose pads")
+        pb, pe = pads[:nsp], pads[nsp:]
+        out_sp = [strides[i] * (in_sp[i] - 1) + opad[i] + eff[i] - pb[i] - pe[i] for i in range(nsp)]
+        if any(o < 0 for o in out_sp):
+            raise Bottom("ConvTranspose negative output size")
+    else:
+        raise NotEncoded("ConvTranspose auto_pad " + str(auto))
+    if Bv is not None and Bv.shape != (M,):
+        raise Bottom("ConvTranspose bias shape")
+    z = zero(k)
+    out = np.empty([N, M] + out_sp, dtype=object)
+    for idx in np.ndindex(*out.shape):
+        out[idx] = Bv[idx[1]] if Bv is not None else z
+    for n in range(N):
+        for c in range(C):
+            g = c // Cg
+            for m in range(Mg):
+                oc = g * Mg + m
+                for ipos in np.ndindex(*in_sp):
+                    for kpos in np.ndindex(*kshape):
+                        opos = []
+                        ok = True
+                        for i in range(nsp):
+                            o = ipos[i] * strides[i] + kpos[i] * dil[i] - pb[i]
+                            if not (0 <= o < out_sp[i]):
+                                ok = False
+                                break
+                            opos.append(o)
+                        if ok:
+                            t = (n, oc) + tuple(opos)
+                            out[t] = e_add(out[t], e_mul(X[(n, c) + ipos], W[(c, m) + kpos], k), k)
+    return out
+
+
+@op("ConvTranspose")
+def _conv_transpose(ins, attrs, ctx):
+    x, w = ins[0], ins[1]
+    b = ins[2] if len(ins) > 2 and ins[2] is not None else None
+    dt = _same_type([x, w] + ([b] if b is not None else []), "ConvTranspose")
+    k = kind(dt)
+    if k != "f":
+        raise Bottom("ConvTranspose needs float")
+    arr = _conv_transpose_arr(x.arr, w.arr, None if b is None else b.arr, attrs, k)
+    mag = None
+    if ctx.track_mag:
+        mag = _conv_transpose_arr(_mag(x), _mag(w), None if b is None else _mag(b), attrs, "f")
+    return [SV(arr, dt, mag)]
+
+
 @op("ConvInteger")
 def _conv_integer(ins, attrs, ctx):
     """y = Conv(int32(x) - x_zero_point, int32(w) - w_zero_point): the padding of the convolution contributes nothing, i.e.
@@ -1296,8 +1389,6 @@ def _conv(ins, attrs, ctx):
 @op("BatchNormalization")
 def _batchnorm(ins, attrs, ctx):
     x, scale, bias, mean, var = ins[:5]
-    if int(attrs.get("training_mode", 0)):
-        raise NotEncoded("BatchNormalization training mode")
     if x.arr.ndim < 2:
         raise Bottom("BatchNorm rank")
     C = x.shape[1]
@@ -1306,6 +1397,38 @@ def _batchnorm(ins, attrs, ctx):
             raise Bottom("BatchNorm parameter shape")
     eps = float(attrs.get("epsilon", 1e-5))
     k = "f"
+    if int(attrs.get("training_mode", 0)):
+        # opset >= 14: Y is normalised with the statistics of the batch; running_mean / running_var are blended with them
+        if ctx.opset < 14:
+            raise NotEncoded("BatchNormalization training mode before opset 14")
+        if ctx.n_outputs != 3:
+            raise Bottom("BatchNormalization training mode needs 3 outputs")
+        mom = Fraction(float(np.float32(attrs.get("momentum", 0.9))))
+        cnt = x.arr.size // C if C else 0
+        if cnt == 0:
+            raise NotEncoded("BatchNormalization training mode on an empty batch")
+        out = np.empty(x.shape, dtype=object)
+        rm = np.empty((C,), dtype=object)
+        rv = np.empty((C,), dtype=object)
+        for c in range(C):
+            elems = [x.arr[pos] for pos in np.ndindex(*x.shape) if pos[1] == c]
+            tot = elems[0]
+            for e in elems[1:]:
+                tot = e_add(tot, e, k)
+            cm = e_mul(tot, Fraction(1, cnt), k)
+            sq = None
+            for e in elems:
+                d = e_sub(e, cm, k)
+                dd = e_mul(d, d, k)
+                sq = dd if sq is None else e_add(sq, dd, k)
+            cv = e_mul(sq, Fraction(1, cnt), k)
+            inv_c = _uf(ctx, f"rsqrt_eps{str(eps).replace('.', 'p').replace('-', 'm')}", cv)
+            for pos in np.ndindex(*x.shape):
+                if pos[1] == c:
+                    out[pos] = e_add(e_mul(e_mul(e_sub(x.arr[pos], cm, k), inv_c, k), scale.arr[c], k), bias.arr[c], k)
+            rm[c] = e_add(e_mul(mean.arr[c], mom, k), e_mul(cm, 1 - mom, k), k)
+            rv[c] = e_add(e_mul(var.arr[c], mom, k), e_mul(cv, 1 - mom, k), k)
+        return [SV(out, x.dtype), SV(rm, mean.dtype), SV(rv, var.dtype)]
     inv = []
     for c in range(C):
         v = var.arr[c]
